@@ -1309,8 +1309,11 @@ impl Gen {
             return None;
         }
         self.issued += 1;
-        let o = sim.observe();
         let perm = self.rng.next_u64();
+        // the generator looks at sums over the holdings map: fix its iteration order too (N3)
+        alator::verif::set_positions_seed(Some(perm));
+        let o = sim.observe();
+        alator::verif::set_positions_seed(None);
         let modes = gen_modes(&mut self.rng, self.cfg.eager_only, self.cfg.delay_p);
         let op = if self.issued == 1 && !self.rng.one_in(8) {
             BOp::Deposit { amt: X(self.amount()) }
